@@ -13,7 +13,7 @@ import (
 )
 
 func init() {
-	register(&Rule{Name: "NIL", Props: []string{"C01", "C03", "C09", "C13", "C17", "C08"}, Floor: 40,
+	register(&Rule{Name: "NIL", Props: []string{"C01", "C03", "C09", "C13", "C17", "C08", "C11"}, Floor: 40,
 		Doc: "a value that may be nil (map result, nil-returning lookup, optional AST/link field) is not dereferenced unguarded",
 		Run: ruleNil})
 	register(&Rule{Name: "NILMAP", Props: []string{"C01", "C04", "C07"}, Floor: 8,
